@@ -407,6 +407,74 @@ def run_tail(case):
     return part
 
 
+def run_trickle(case):
+    """a download is blocked in one write (the block is larger than the transport's buffer limits); the data peer takes
+    a few bytes of it - not enough for the writer to go on - and then nothing any more: the connection has stopped
+    moving and is given up.  Both readings of 'after socket_timeout' are accepted (counted from the write that
+    cannot complete / from the last byte the peer took); held beyond the later one is a violation."""
+    idle, sock, wf = case["cfg"]
+    part = report.Partial()
+    spy = backends.SpyControl()
+    rig = Rig(n_sessions=1, tree={"big": bytes(range(64, 128))}, spy=spy, window=16, advance=0,
+              server_kwargs={"block_size": 64, "idle_timeout": idle, "socket_timeout": sock, "wait_future_timeout": wf})
+    problems = []
+    try:
+        from vf.world import Running
+        w = rig.world
+        s = rig.sessions[0]
+        for n, e in enumerate(["@connect", "USER anonymous", "EPSV", "@data", "@dstop"]):
+            w.advance_to(n * GAP)
+            rig.ev(0, e)
+        t_verb = 5 * GAP
+        w.advance_to(t_verb)
+        r = rig.ev(0, "RETR big")
+        codes = [c for c, _ in (r or [])]
+        data_t = [t for t in w.net.all_transports if t.side == "server" and t.get_extra_info("sockname")[1] != 2121]
+        if codes != ["150"] or len(data_t) != 1:
+            problems.append({"kind": "trickle-transfer-not-blocked", "codes": codes})
+        else:
+            dt = data_t[0]
+            t_last = t_verb
+            for frac, nbytes in case["takes"]:
+                t_take = t_verb + frac * sock
+                w.advance_to(t_take)
+                if not dt.held():
+                    break
+                with Running(w.loop):
+                    if s.data.t.inbox and s.data.t.inbox[0][1] == "data":
+                        w.net._deliver_net(s.data.t, nbytes)
+                        t_last = t_take
+                w.settle(0)
+            t = w.loop.time()
+            while t < t_last + sock + 2:
+                t = (int(t / GAP) + 1) * GAP
+                w.advance_to(t)
+                if s.closed() or rig.ev(0, "PWD") is None:
+                    break
+            if dt.held():
+                problems.append({"kind": "data-socket-kept-by-a-peer-that-has-stopped-reading", "bound": t_last + sock,
+                                 "now": w.loop.time(), "taken": len(s.data.received)})
+            elif dt.lost_time is not None and dt.lost_time < t_verb + sock - 1e-9:
+                problems.append({"kind": "data-socket-given-up-too-early", "at": dt.lost_time, "bound": t_verb + sock})
+            elif dt.lost_time is not None and dt.lost_time > t_last + sock + 1e-9:
+                problems.append({"kind": "data-socket-given-up-too-late", "at": dt.lost_time, "bound": t_last + sock})
+            if not problems:
+                for p in ledger.closed_problems(w, rig.server, spy=spy, advance=0) if s.closed() else []:
+                    problems.append(p)
+        part.evaluations += 1
+        part.traces += 1
+        part.transitions += w.net.n_events
+        part.states.add(report.fp(["trickle", case]))
+        part.nontrivial.add(report.fp(["trickle", case]))
+        part.outcomes[report.fp(["trickle", codes, [p["kind"] for p in problems]])] += 1
+        for p in problems:
+            part.violation({"kind": p["kind"], "script": "trickle", "stall": "noread", "cfg": list(case["cfg"])},
+                           {"problem": p, "case": case}, replay={"case": case, "choices": [], "kinds": []})
+    finally:
+        rig.close()
+    return part
+
+
 def run_two_waiting(case):
     """two transfer commands are waiting for a data connection and one connection is made: one transfer is served, the
     other one is answered 425 (it has no data connection) - and the session continues"""
@@ -462,6 +530,8 @@ def _work(item):
         return run_tail(case)
     if case.get("two_waiting"):
         return run_two_waiting(case)
+    if case.get("trickle"):
+        return run_trickle(case)
     try:
         for ch, res in explore(lambda c: run_stall(case, c), bound, kinds=kinds, max_exec=3000):
             if ch is None:
@@ -494,6 +564,10 @@ def build_items(tier):
         for verb in ("RETR d/f", "LIST", "MLSD d"):
             for sndbuf in (0, 4, 6):
                 items.append(({"tail": True, "cfg": list(cfg), "verb": verb, "sndbuf": sndbuf}, 0, []))
+        if cfg[1] is not None:
+            # the peer takes a little of a blocked write and then stops for good
+            for takes in ([(0.5, 1)], [(0.25, 8)], [(0.75, 40)], [(0.25, 1), (0.5, 1)], [(0.5, 59)], []):
+                items.append(({"trickle": True, "cfg": list(cfg), "takes": [list(x) for x in takes]}, 0, []))
         for name, script in QUIT_SCRIPTS.items():
             items.append(({"cfg": list(cfg), "script": name, "k": len(script), "kind": "noread"}, 0, []))
         for name, script in SCRIPTS.items():
@@ -545,6 +619,10 @@ def replay(path):
     rp = data["replay"]
     if rp["case"].get("two_waiting"):
         part = run_two_waiting(rp["case"])
+        print(json.dumps([v for v in part.violations], indent=1, default=repr))
+        return 1 if part.violations else 0
+    if rp["case"].get("trickle"):
+        part = run_trickle(rp["case"])
         print(json.dumps([v for v in part.violations], indent=1, default=repr))
         return 1 if part.violations else 0
     if rp["case"].get("tail"):
